@@ -129,16 +129,28 @@ func (db *MultiBucketBackend) ListBucket(bucket string, prefix *gofakes3.Prefix,
 }
 
 func (db *MultiBucketBackend) getBucketWithFilePrefixLocked(bucket string, prefixPath, prefixPart string) (*gofakes3.ObjectList, error) {
-	bucketPath := path.Join(bucket, prefixPath)
-
-	dirEntries, err := afero.ReadDir(db.bucketFs, filepath.FromSlash(bucketPath))
-	if os.IsNotExist(err) {
-		return nil, gofakes3.BucketNotFound(bucket)
-	} else if err != nil {
+	if exists, err := afero.DirExists(db.bucketFs, filepath.FromSlash(bucket)); err != nil {
 		return nil, err
+	} else if !exists {
+		return nil, gofakes3.BucketNotFound(bucket)
 	}
 
 	response := gofakes3.NewObjectList()
+
+	bucketPath := path.Join(bucket, prefixPath)
+
+	// A prefix that does not lead to a directory matches no keys; that is an
+	// empty listing, not a missing bucket:
+	if isDir, err := afero.DirExists(db.bucketFs, filepath.FromSlash(bucketPath)); err != nil {
+		return nil, err
+	} else if !isDir {
+		return response, nil
+	}
+
+	dirEntries, err := afero.ReadDir(db.bucketFs, filepath.FromSlash(bucketPath))
+	if err != nil {
+		return nil, err
+	}
 
 	for _, entry := range dirEntries {
 		object := entry.Name()
